@@ -35,7 +35,7 @@ Record shared := {
   q : list msg; devbuf : list Z; tok : tstate; sleeps : nat;
   (* ghosts *)
   produced : list msg;          (* every message ever put into the deque *)
-  recvd : list msg;             (* every message ever popped *)
+  recvd : list (tid * msg);     (* every message ever popped, with the thread that popped it *)
   allread : list Z;             (* every byte ever read from the device *)
   stream : list (tid * msg);    (* device: the messages in the order their senders got the lock; echo: in append order *)
   wrest : list Z                (* bytes the current writer still has to write *)
@@ -75,7 +75,7 @@ Definition finish_recv (th : thread) (r : option msg) : thread :=
 Definition is_block (th : thread) : bool := match prog th with Recv b :: _ => b | _ => false end.
 Definition finish_send (th : thread) : thread := {| prog := tl (prog th); at_ := AtStart; results := results th ++ [RSent] |}.
 
-Definition with_q (s : shared) (q' : list msg) (recvd' : list msg) : shared :=
+Definition with_q (s : shared) (q' : list msg) (recvd' : list (tid * msg)) : shared :=
   {| lk_in := lk_in s; lk_out := lk_out s; q := q'; devbuf := devbuf s; tok := tok s; sleeps := sleeps s; produced := produced s; recvd := recvd';
      allread := allread s; stream := stream s; wrest := wrest s |}.
 
@@ -109,7 +109,7 @@ Definition step_thread (s : shared) (t : tid) (th : thread) : option (shared * t
   | RBool1 => Some (s, set_pc th (match q s with [] => RRel1 None | _ => RPop1 end))
   | RPop1 => match q s with
              | [] => Some (s, set_pc th (Raised IndexError))
-             | m :: r => Some (with_q s r (recvd s ++ [m]), set_pc th (RRel1 (Some m)))
+             | m :: r => Some (with_q s r (recvd s ++ [(t, m)]), set_pc th (RRel1 (Some m)))
              end
   | RRel1 r => Some (release s LIn, match r with Some _ => finish_recv th r | None => set_pc th LAcq end)
   | LAcq => if can_acquire s LIn t then Some (acquire s LIn t, set_pc th (match c_kind c with KDevice => LRead | KEcho => LBool end)) else None
@@ -123,7 +123,7 @@ Definition step_thread (s : shared) (t : tid) (th : thread) : option (shared * t
   | LBool => Some (s, set_pc th (match q s with [] => LRel None (is_block th) | _ => LPop end))
   | LPop => match q s with
             | [] => Some (s, set_pc th (Raised IndexError))
-            | m :: r => Some (with_q s r (recvd s ++ [m]), set_pc th (LRel (Some m) false))
+            | m :: r => Some (with_q s r (recvd s ++ [(t, m)]), set_pc th (LRel (Some m) false))
             end
   | LRel r slp => Some (release s LIn, if slp then set_pc th LSleep else finish_recv th r)
   | LSleep => Some ({| lk_in := lk_in s; lk_out := lk_out s; q := q s; devbuf := devbuf s; tok := tok s; sleeps := S (sleeps s); produced := produced s;
